@@ -157,7 +157,8 @@ fn main() {
             std::process::exit(if still { 1 } else { 0 });
         }
         "de-replay" => {
-            let s = de_leg::replay(&de_leg::Opts { file: get("file", ""), prop: get("prop", "C07"), out_dir: get("out-dir", "evidence/replay"), mode: get("mode", "soup"), seed, mutate: get("mutate", "0") == "1" });
+            let s = de_leg::replay(&de_leg::Opts { file: get("file", ""), prop: get("prop", "C07"), out_dir: get("out-dir", "evidence/replay"), mode: get("mode", "soup"), seed, mutate: get("mutate", "0") == "1",
+                sizes: get("sizes", "1,3").split(',').filter_map(|x| x.parse().ok()).collect() });
             println!("SUMMARY {}", serde_json::to_string(&s).unwrap());
         }
         "de-mutate" => {
